@@ -155,18 +155,22 @@ def s2(ctx, rep, clause="S2"):
     g = P.method("Tuner", "_handle_failure")
     raises = [n for n in walk_shallow(g.node) if isinstance(n, ast.Raise)]
     lp = [s_ for s_ in walk_shallow(g.node) if isinstance(s_, ast.For) and isinstance(s_.iter, ast.Call) and fn_name(s_.iter) == "items"
-          and isinstance(s_.target, ast.Tuple) and any(r is x for r in raises for x in ast.walk(s_))]
+          and isinstance(s_.target, ast.Tuple)]
     if len(lp) != 1:
-        raise AnchorError("Tuner._handle_failure: loop over (trial id, (trial, status)) enclosing the raise not found")
+        raise AnchorError("Tuner._handle_failure: loop over (trial id, (trial, status)) not found")
     tidv = U(lp[0].target.elts[0])
+    # the id named in the error is the loop's trial id, or a local that takes its value from it (first failed trial found)
+    named = {tidv} | {x.targets[0].id for x in walk_shallow(g.node) if isinstance(x, ast.Assign) and len(x.targets) == 1
+                      and isinstance(x.targets[0], ast.Name) and U(x.value) == tidv}
     ok = False
     for r in raises:
         fs = [x for x in ast.walk(r) if isinstance(x, ast.FormattedValue)]
-        if any(U(x.value) == tidv for x in fs):
+        if any(U(x.value) in named for x in fs):
             ok = True
     cg = cfg_of(g)
     rn = [n.id for n in cg.nodes if n.kind == "stmt" and isinstance(n.ast, ast.Raise)]
-    guarded = bool(rn) and all(ctx.has_fact(g, n, lambda a: a[0] == "eq" and a[3] is True and "Status.failed" in (a[1], a[2])) for n in rn)
+    from .common import dom_guard
+    guarded = bool(rn) and all(any(a[0] == "eq" and a[3] is True and "Status.failed" in (a[1], a[2]) for a in dom_guard(ctx, g, n)) for n in rn)
     rep.put(ok and guarded, clause, "agreement", "Tuner._handle_failure raises an error naming a failed trial", g,
             raises[0] if raises else None, "raise ... f'{trial_id}' guarded by status == Status.failed")
 
